@@ -167,6 +167,15 @@ def _stack_table(model, fn, tokname, stack_pred0, r):
     for n in iter_scope(fn.node):
         if isinstance(n, ast.If) and mentions_back(n.test) and not (
                 isinstance(n._parent, ast.If) and n in n._parent.orelse and mentions_back(n._parent.test)):
+            # not the bookkeeping inside a shortcut (`if same language: ...; continue`)
+            p = n._parent
+            inside_shortcut = False
+            while p is not None and p is not fn.node:
+                if isinstance(p, ast.If) and any(isinstance(x, ast.Continue) for x in p.body) and n in list(ast.walk(p)):
+                    inside_shortcut = True
+                p = getattr(p, '_parent', None)
+            if inside_shortcut:
+                continue
             top = n
             break
     if top is None:
@@ -277,6 +286,45 @@ def ml2(model):
     t2 = _stack_table(model, f2, tokpar, lambda e: unparse(e) == 'self.parser_lang_stack', r)
     if t1 is None or t2 is None:
         raise AnalysisError('anchor vanished: `if tok.back` structure of a language stack machine')
+    # (c) a shortcut in front of the stack update ("the token switches to the language that is
+    # current anyway: nothing to do") must not swallow a soft push - its closing token still pops
+    for lp in loop[:1]:
+        for st in lp.body:
+            if not (isinstance(st, ast.If) and any(isinstance(x, ast.Continue) for x in st.body)):
+                continue
+            txt = unparse(st.test)
+            if not (tname + '.lang' in txt and sname in txt):
+                continue
+
+            def evs(e):
+                if isinstance(e, ast.BoolOp):
+                    vals = [evs(x) for x in e.values]
+                    return all(vals) if isinstance(e.op, ast.And) else any(vals)
+                if isinstance(e, ast.UnaryOp) and isinstance(e.op, ast.Not):
+                    return not evs(e.operand)
+                if isinstance(e, ast.Attribute) and unparse(e.value) == tname and e.attr in ('back', 'hard'):
+                    return False            # the soft push: neither back nor hard
+                if isinstance(e, ast.Compare) and tname + '.lang' in unparse(e) and sname in unparse(e):
+                    return isinstance(e.ops[0], ast.Eq)
+                raise _Stop(unparse(e))
+            try:
+                taken = evs(st.test)
+            except _Stop:
+                r.undec(st, 'shortcut condition not interpreted: %s' % txt)
+                r.instances += 1
+                continue
+            pushes = any(isinstance(c, ast.Call) and T.call_name(c) == 'append' and unparse(c.func.value) == sname
+                         and not any(isinstance(a, ast.If) and (unparse(a.test).endswith('.back') or unparse(a.test).endswith('.hard'))
+                                     and c in list(ast.walk(a)) and any(c in list(ast.walk(b)) for b in a.body)
+                                     and not isinstance(a.test, ast.UnaryOp) for a in ast.walk(st) if a is not st)
+                         for c in ast.walk(st))
+            if taken and not pushes:
+                r.fail(st, 'the splitter skips a language token that switches to the language already '
+                       'on top of its stack, also when the token is a soft push: the matching closing '
+                       'token still pops, and the text behind it is labelled with the outer language',
+                       witness='\\begin{otherlanguage}{german} A \\foreignlanguage{german}{B} C D E F G H \\end{otherlanguage}')
+            else:
+                r.ok(st, 'the same-language shortcut keeps the stack balanced', nontrivial=True)
     for key in sorted(t1):
         back, hard, deep = key
         want = 'POP' if (back and deep) else ('NONE' if back else ('REPLACE' if hard else 'PUSH'))
